@@ -85,9 +85,12 @@ let handle_xrepl words =
 (* xnorm n L repl i_n i_l i_r -> effective n L repl *)
 let handle_xnorm words =
   match words with
-  | [n; l; r; i_n; i_l; i_r] ->
-    let oi s = if s = "-" then None else Some (nat_of_int (int_of_string s)) in
-    let ((n', l'), r') = XReplace.normalize (opt_n n) (opt_n l) (r = "1") (oi i_n) (oi i_l) (oi i_r) in
+  | [seq] ->
+    let opt tok =
+      if tok = "I" then XReplace.OI
+      else if tok.[0] = 'n' then XReplace.ON (n_of_int (int_of_string (Stdlib.String.sub tok 1 (Stdlib.String.length tok - 1))))
+      else XReplace.OL (n_of_int (int_of_string (Stdlib.String.sub tok 1 (Stdlib.String.length tok - 1)))) in
+    let ((n', l'), r') = XReplace.normalize (Stdlib.List.map opt (list_of seq)) in
     let sh = function None -> "-" | Some v -> string_of_int (int_of_n v) in
     Stdlib.Printf.sprintf "%s %s %d" (sh n') (sh l') (if r' then 1 else 0)
   | _ -> "badcase"
